@@ -148,7 +148,7 @@ Proof.
 Qed.
 
 Lemma run_method_le rv m args : le_res (run_method app1 rv m args) (run_method app2 rv m args).
-Proof. destruct rv; cbn [run_method]; try apply le_refl. apply run_list_method_le. Qed.
+Proof. destruct rv; cbn [run_method]; try apply run_list_method_le; apply le_refl. Qed.
 
 End Lib.
 
@@ -184,7 +184,9 @@ Qed.
 
 Lemma ref_step_le env a : le_res (ref_step known ev1 env a) (ref_step known ev2 env a).
 Proof.
-  destruct a; cbn [ref_step]; try apply le_refl.
+  destruct a; cbn [ref_step].
+  - (* const *) apply le_refl.
+  - (* ident *) apply le_refl.
   - (* let *) apply le_bind; [apply HE|]. intros; apply HE.
   - (* if *) apply le_bind; [apply HE|]. intros cv. destruct cv; try apply le_refl.
     destruct b; apply HE.
@@ -206,6 +208,7 @@ Proof.
       destruct av; try (apply le_bind; [apply HE|intros; apply le_refl]).
       destruct b; [apply le_refl|]. apply le_bind; [apply HE|intros; apply le_refl]. }
     apply le_bind; [apply HE|]. intros. apply le_bind; [apply HE|intros; apply le_refl].
+  - (* closure *) apply le_refl.
   - (* list *) apply le_bind; [apply r_list_le|intros; apply le_refl].
   - (* index *) apply le_bind; [apply HE|]. intros. apply le_bind; [apply HE|intros; apply le_refl].
   - (* map *) apply r_map_le.
